@@ -60,6 +60,54 @@ theorem select_pipeline (env : Env N) (data : Row N) (t : String) (rows : List (
     simp only [selCtx, List.length_map] at this
     simp only [List.length_map, bind, Except.bind, pure, Except.pure, this]
 
+/-- the context `exec()` evaluates WHERE in: the rows that passed are not known yet, `matched` is the whole source -/
+def whereCtx (data : Row N) (src : List (Val N)) : Ctx N :=
+  { data := data, hard := false, grouped := false, matched := src, fromLen := src.length }
+
+/-- **two phases, two row sets.**  For ANY WHERE expression — in particular one that contains a whole-table aggregate, which
+    `WT` excludes — whose truth value on each source row, evaluated in the SOURCE context (`matched` = every source row), is
+    `keep r`: the statement returns `window (sort (dedup ((rows.filter keep).map proj)))`, where the select list was
+    evaluated in the KEPT context (`matched` = the rows that passed).  An aggregate call therefore sees all source rows
+    when it stands in WHERE and the filtered rows when the same text stands in the select list (repair D53). -/
+theorem select_pipeline_phases (env : Env N) (data : Row N) (t : String) (rows : List (Row N)) (p : Expr N)
+    (sel : List (SelItem N)) (distinct : Bool) (orderBy : List (List String × Bool)) (limit offset : Option Nat)
+    (keep : Row N → Bool) (proj : Row N → Row N)
+    (ht : Val.get data t = .arr (rows.map Val.obj))
+    (hkeep : ∀ r ∈ rows, (evalExpr env (whereCtx data (rows.map Val.obj)) r p >>= rawBool) = .ok (keep r))
+    (hna : isAllAggr sel = false)
+    (hsel : ∀ r ∈ rows.filter keep,
+      evalSel env (selCtx data (rows.map Val.obj) ((rows.filter keep).map Val.obj)) r sel [] = .ok (proj r)) :
+    execQuery env data {} (.select [] distinct sel (.table [t] "" t) p [] (.bool true) orderBy limit offset)
+      = (do
+          let projected := (rows.filter keep).map fun r => Val.obj (proj r)
+          let deduped := if distinct then dedupBy valEq projected else projected
+          let sorted ← sortRows orderBy deduped
+          let out ← window sorted offset limit
+          pure (Val.arr out)) := by
+  have hE : ("" : String).isEmpty = true := by decide
+  simp only [execQuery, prepare, evalCtes, evalFrom, cteNames, List.append_nil, List.not_mem_nil,
+    if_false, readPath_single, ht, asArray, processAlias, bind, Except.bind, pure, Except.pure,
+    hE, if_true, execLevel, List.isEmpty_nil, Bool.not_true]
+  rw [levelLoop_flat _ _ _ rows keep (by
+    intro r hr
+    have := hkeep r hr
+    simp only [whereCtx, bind, Except.bind] at this
+    exact this)]
+  simp only [Bool.false_eq_true, if_false, hna, Bool.false_and, selectRowsWith, Bool.not_false, if_true]
+  rw [mapE_eq_map_of_ok (g := fun v => match v with | Val.obj fs => Val.obj (proj fs) | v => v)]
+  · simp only [List.map_map, Function.comp_def]
+    cases hs : sortRows orderBy (if distinct = true then
+        dedupBy valEq (List.map (fun x => Val.obj (proj x)) (List.filter keep rows))
+        else List.map (fun x => Val.obj (proj x)) (List.filter keep rows)) with
+    | error e => rfl
+    | ok v => cases hw : window v offset limit <;> rfl
+  · intro x hx
+    simp only [List.mem_map] at hx
+    obtain ⟨r, hr, rfl⟩ := hx
+    have := hsel r hr
+    simp only [selCtx, List.length_map] at this
+    simp only [List.length_map, bind, Except.bind, pure, Except.pure, this]
+
 /-- without ORDER BY, DISTINCT and a window the pipeline is filter-then-project (C01 + C02) -/
 theorem select_filter_project (env : Env N) (data : Row N) (t : String) (rows : List (Row N)) (p : Expr N)
     (sel : List (SelItem N)) (proj : Row N → Row N)
@@ -111,6 +159,34 @@ theorem whole_aggregate_pipeline (env : Env N) (data : Row N) (t : String) (rows
   simp only [Bool.false_eq_true, if_false, hall, Bool.true_and, selectRowsWith, Bool.not_false, if_true,
     List.length_map, hsel, bind, Except.bind, pure, Except.pure, hd, ite_self, hs]
 
+/-- the same for ANY WHERE expression (aggregates included) with truth value `keep r` in the source context: the ONE row is
+    computed over the rows that passed, whatever value the same aggregate text had while WHERE was evaluated (D53) -/
+theorem whole_aggregate_phases (env : Env N) (data : Row N) (t : String) (rows : List (Row N)) (p : Expr N)
+    (sel : List (SelItem N)) (distinct : Bool) (orderBy : List (List String × Bool)) (limit offset : Option Nat)
+    (keep : Row N → Bool) (row : Row N)
+    (ht : Val.get data t = .arr (rows.map Val.obj))
+    (hkeep : ∀ r ∈ rows, (evalExpr env (whereCtx data (rows.map Val.obj)) r p >>= rawBool) = .ok (keep r))
+    (hall : isAllAggr sel = true)
+    (hsel : evalSel env (selCtx data (rows.map Val.obj) ((rows.filter keep).map Val.obj)) [] sel [] = .ok row) :
+    execQuery env data {} (.select [] distinct sel (.table [t] "" t) p [] (.bool true) orderBy limit offset)
+      = (do
+          let out ← window [Val.obj row] offset limit
+          pure (Val.arr out)) := by
+  have hE : ("" : String).isEmpty = true := by decide
+  simp only [execQuery, prepare, evalCtes, evalFrom, cteNames, List.append_nil, List.not_mem_nil,
+    if_false, readPath_single, ht, asArray, processAlias, bind, Except.bind, pure, Except.pure,
+    hE, if_true, execLevel, List.isEmpty_nil, Bool.not_true]
+  rw [levelLoop_flat _ _ _ rows keep (by
+    intro r hr
+    have := hkeep r hr
+    simp only [whereCtx, bind, Except.bind] at this
+    exact this)]
+  simp only [selCtx, List.length_map] at hsel
+  have hd : dedupBy valEq [Val.obj row] = [Val.obj row] := by simp [dedupBy, dedupLoop]
+  have hs : sortRows orderBy [Val.obj row] = .ok [Val.obj row] := by simp [sortRows]
+  simp only [Bool.false_eq_true, if_false, hall, Bool.true_and, selectRowsWith, Bool.not_false, if_true,
+    List.length_map, hsel, bind, Except.bind, pure, Except.pure, hd, ite_self, hs]
+
 /-- in particular `SELECT <aggregates> FROM t WHERE p LIMIT n` (n ≥ 1) is the row over all matching rows -/
 theorem whole_aggregate_limit (env : Env N) (data : Row N) (t : String) (rows : List (Row N)) (p : Expr N)
     (sel : List (SelItem N)) (n : Nat) (hn : 1 ≤ n) (row : Row N)
@@ -154,6 +230,31 @@ example : execQuery exEnv exData {} (.select [] true [.item (.col ["a"]) "a" ""]
 example : execQuery exEnv exData {} (.select [] false [.item (.aggr "count" []) "n" "n", .item (.aggr "sum" [.col ["a"]]) "s" "s"]
       (.table ["t"] "" "t") (.cmp .gt (.col ["b"]) (.num 0)) [] (.bool true) [] (some 1) none)
     = .ok (.arr [.obj [("n", .num 3), ("s", .num 5)]]) := by decide
+/-- a CORRELATED `IN` sub-query — ``SELECT id FROM t WHERE id IN (SELECT v FROM `<-u` WHERE v >= `<-.lo`)`` — is evaluated for
+    every outer row with that row behind `<-`: the candidate set differs from row to row ({} for lo = 10, {1,2,3} for lo = 0,
+    {3} for lo = 3, {2,3} for lo = 2), so rows 2 and 3 are kept (round 11: a memo per sub-query text kept the first row's set) -/
+example : execQuery exEnv
+      [("t", .arr [.obj [("id", .num 1), ("lo", .num 10)], .obj [("id", .num 2), ("lo", .num 0)], .obj [("id", .num 3), ("lo", .num 3)],
+                   .obj [("id", .num 1), ("lo", .num 2)], .obj [("id", .num 5), ("lo", .num 0)]]),
+       ("u", .arr [.obj [("v", .num 1)], .obj [("v", .num 2)], .obj [("v", .num 3)]])] {}
+      (.select [] false [.item (.col ["id"]) "id" ""] (.table ["t"] "" "t")
+        (.cmp .in_ (.col ["id"]) (.subq (.select [] false [.item (.col ["v"]) "v" ""] (.table ["<-", "u"] "" "<-u")
+          (.cmp .ge (.col ["v"]) (.col ["<-", "lo"])) [] (.bool true) [] none none)))
+        [] (.bool true) [] none none)
+    = .ok (.arr [.obj [("id", .num 2)], .obj [("id", .num 3)]]) := by decide
+
+/-- `SELECT a, a - MAX(a) AS d FROM t LIMIT 2`: an aggregate NESTED in an expression of a plain select list is over all rows
+    that passed WHERE (MAX = 5, from the fourth row), although the window keeps two (round 11: a scan that stopped at the
+    end of the window) -/
+example : execQuery exEnv exData {} (.select [] false [.item (.col ["a"]) "a" "", .item (.bin .minus (.col ["a"]) (.aggr "max" [.col ["a"]])) "d" "d"]
+      (.table ["t"] "" "t") (.bool true) [] (.bool true) [] (some 2) none)
+    = .ok (.arr [.obj [("a", .num 2), ("d", .num (-3))], .obj [("a", .num 1), ("d", .num (-4))]]) := by decide
+/-- the WHERE hypothesis of `select_pipeline_phases` is met by a predicate with an aggregate: on the four rows of `t`,
+    `a * 4 > SUM(a)` (SUM over the SOURCE = 10) keeps exactly the row with a = 5 -/
+def exRows : List (Row Int) := [[("a", .num 2), ("b", .num 9)], [("a", .num 1), ("b", .num 8)], [("a", .num 2), ("b", .num 7)], [("a", .num 5), ("b", .num 0)]]
+example : ∀ r ∈ exRows, (evalExpr exEnv (whereCtx exData (exRows.map Val.obj)) r
+      (.cmp .gt (.bin .mult (.col ["a"]) (.num 4)) (.aggr "sum" [.col ["a"]])) >>= rawBool)
+    = .ok (decide (Val.get r "a" = .num 5)) := by decide
 /-- `SELECT SUM(a) AS s, COUNT(*) AS n FROM t WHERE a * 4 > SUM(a)`: the `SUM(a)` inside WHERE is over ALL source rows
     (2+1+2+5 = 10: the filter has not run), the `SUM(a)` of the same text in the select list is over the one row that
     passed (a = 5).  The implementation shared one memo entry between the two until repair D53 (it answered s = 10). -/
